@@ -80,13 +80,19 @@ fn apply(bytes: &[u8], m: &Medium) -> Vec<u8> {
 
 /// Per-frame observation: (fields or ERR, payload hash or ERR, embedding hash or "-")
 pub fn observe_reads(mem: &mut Memvid, n_frames: u64) -> Vec<(String, String, String)> {
+    observe_reads_ext(mem, n_frames, false)
+}
+
+/// `old_versions`: also read the payload of superseded / deleted frames by id (their bytes stay in
+/// the file until a vacuum, and reading an old version is an ordinary public call).
+pub fn observe_reads_ext(mem: &mut Memvid, n_frames: u64, old_versions: bool) -> Vec<(String, String, String)> {
     let mut v = Vec::new();
     for id in 0..n_frames {
         let (fields, active) = match mem.frame_by_id(id) {
             Ok(f) => (format!("{:?}|{:?}|{:?}|{:?}|{:?}|{:?}|{}|{:?}|{:?}", f.uri, f.status, f.role, f.parent_id, f.supersedes, f.superseded_by, f.timestamp, f.tags, f.title), f.status == memvid_core::FrameStatus::Active),
             Err(_) => ("ERR".to_string(), false),
         };
-        let payload = if active {
+        let payload = if active || (old_versions && fields != "ERR") {
             match mem.frame_canonical_payload(id) {
                 Ok(b) => blake3::hash(&b).to_hex()[..16].to_string(),
                 Err(_) => "ERR".to_string(),
@@ -140,7 +146,10 @@ pub fn regions_of(bytes: &[u8], frames: &[(u64, u64)]) -> Vec<Region> {
     let footer_off = if bytes.len() >= 16 { u64::from_le_bytes(bytes[8..16].try_into().unwrap()) } else { 0 };
     v.push(Region { name: "header.magic+version", off: 0, len: 8 });
     v.push(Region { name: "header.footer_offset", off: 8, len: 8 });
-    v.push(Region { name: "header.wal_fields", off: 16, len: 32 });
+    v.push(Region { name: "header.wal_offset", off: 16, len: 8 });
+    v.push(Region { name: "header.wal_size", off: 24, len: 8 });
+    v.push(Region { name: "header.wal_checkpoint_pos", off: 32, len: 8 });
+    v.push(Region { name: "header.wal_sequence", off: 40, len: 8 });
     v.push(Region { name: "header.toc_checksum", off: 48, len: 32 });
     v.push(Region { name: "header.rest", off: 80, len: 4016 });
     v.push(Region { name: "wal", off: 4096, len: wal_size });
@@ -176,7 +185,10 @@ pub fn gen_faults(r: &mut Rng, regs: &[Region], n_bytes: u64, count: usize, log_
             }
             reg = (*r.pickv(&cands)).clone();
         }
-        let off = reg.off + r.below(reg.len);
+        // little-endian numeric fields: most of the time aim at the two low-order bytes, where a
+        // flip yields a nearby plausible value instead of an absurd one
+        let numeric = matches!(reg.name, "header.footer_offset" | "header.wal_offset" | "header.wal_size" | "header.wal_checkpoint_pos" | "header.wal_sequence" | "footer.toc_len");
+        let off = if numeric && r.chance(3, 4) { reg.off + r.below(2) } else { reg.off + r.below(reg.len) };
         let m = match r.below(if repairable_only { 6 } else { 12 }) {
             0..=3 => Medium::Flip { off, mask: 1 << r.below(8) },
             4 => Medium::Zero { off: reg.off, len: reg.len.min(r.range(1, 4096)) },
@@ -196,7 +208,19 @@ pub fn gen_faults(r: &mut Rng, regs: &[Region], n_bytes: u64, count: usize, log_
     out
 }
 
+thread_local! {
+    static PHASE_MS: std::cell::RefCell<BTreeMap<String, u64>> = Default::default();
+}
+
 fn guarded<T>(what: &str, f: impl FnOnce() -> T) -> Result<T, String> {
+    let t0 = shim::real_ms();
+    let r = guarded_inner(what, f);
+    let dt = shim::real_ms() - t0;
+    PHASE_MS.with(|m| *m.borrow_mut().entry(format!("ms_{}", what.replace(' ', "_"))).or_default() += dt);
+    r
+}
+
+fn guarded_inner<T>(what: &str, f: impl FnOnce() -> T) -> Result<T, String> {
     catch_unwind(AssertUnwindSafe(f)).map_err(|p| {
         let msg = p.downcast_ref::<String>().cloned().or_else(|| p.downcast_ref::<&str>().map(|s| s.to_string())).unwrap_or_else(|| "panic".into());
         format!("{what}: {msg}")
@@ -240,7 +264,7 @@ pub fn run_corrupt(scn: &Scenario, prop: &str, explore: bool) -> RunResult {
         Ok(mut m) => {
             let n = m.frame_count() as u64;
             let pos: Vec<(u64, u64)> = (0..n).filter_map(|id| m.frame_by_id(id).ok()).map(|f| (f.payload_offset, f.payload_length)).collect();
-            (observe_reads(&mut m, n), pos, n)
+            (observe_reads_ext(&mut m, n, prop != "C21"), pos, n)
         }
         Err(_) => {
             res.inconclusive = true;
@@ -260,13 +284,30 @@ pub fn run_corrupt(scn: &Scenario, prop: &str, explore: bool) -> RunResult {
     } else {
         Vec::new()
     };
+    // a lost write is addressed by the write, not by the region that was drawn before it
+    let lost_label = |idx: usize| -> &'static str {
+        let off = last_seg.and_then(|s| s.log.get(idx)).map(|o| o.off).unwrap_or(u64::MAX);
+        if off < 4096 {
+            "lost-write@header"
+        } else {
+            match regs.iter().find(|r| r.off <= off && off < r.off + r.len).map(|r| r.name) {
+                Some("wal") => "lost-write@wal",
+                Some("payload") => "lost-write@payload",
+                Some("indexes") => "lost-write@indexes",
+                Some("toc") => "lost-write@toc",
+                Some(n) if n.starts_with("footer") => "lost-write@footer",
+                _ => "lost-write@elsewhere",
+            }
+        }
+    };
+    let faults: Vec<(Medium, &'static str)> = faults.into_iter().map(|(m, n)| if let Medium::LostWrite { idx } = &m { let l = lost_label(*idx); (m, l) } else { (m, n) }).collect();
     let mut found: Vec<(ViolationRec, Medium)> = Vec::new();
     let mut by_region: BTreeMap<String, u64> = BTreeMap::new();
     let mut by_kind: BTreeMap<String, u64> = BTreeMap::new();
     let mut stats: BTreeMap<&'static str, u64> = BTreeMap::new();
     let known: Vec<String> = crate::evidence::load_findings().into_iter().filter(|f| f.status == "known").map(|f| f.signature).collect();
     let mut unknown = 0;
-    let soft_ms: u64 = if tier_thorough { 200_000 } else { 12_000 };
+    let soft_ms: u64 = if tier_thorough { 300_000 } else { 90_000 };
     for (k, (m, regname)) in faults.iter().enumerate() {
         if unknown >= 2 || shim::real_ms() - t0 > soft_ms {
             break;
@@ -286,6 +327,12 @@ pub fn run_corrupt(scn: &Scenario, prop: &str, explore: bool) -> RunResult {
             *stats.entry("fault_without_effect").or_default() += 1;
             continue;
         }
+        // root cause named by its effect on the decoded header: an image whose stored log sequence
+        // number is lower than the committed one makes open re-apply records that are already part
+        // of the committed state (whatever fault produced that value)
+        let seq_of = |b: &[u8]| if b.len() >= 48 { u64::from_le_bytes(b[40..48].try_into().unwrap()) } else { u64::MAX };
+        let regname: &'static str = if seq_of(&bytes) < seq_of(&pristine) { "header.wal_sequence-lowered" } else { regname };
+        let regname = &regname;
         *by_region.entry(regname.to_string()).or_default() += 1;
         let kind = format!("{:?}", m).split([' ', '{']).next().unwrap_or("").to_string();
         *by_kind.entry(kind.clone()).or_default() += 1;
@@ -333,7 +380,7 @@ pub fn run_corrupt(scn: &Scenario, prop: &str, explore: bool) -> RunResult {
                     Ok(Err(_)) => *stats.entry("open_rejected").or_default() += 1,
                     Ok(Ok(mut mem)) => {
                         *stats.entry("open_accepted").or_default() += 1;
-                        let reads = guarded("reads", || observe_reads(&mut mem, n_frames));
+                        let reads = guarded("reads", || observe_reads_ext(&mut mem, n_frames, true));
                         match reads {
                             Err(p) => vs.push(mk(&["C22"], "no-panic", panic_sig(&p), format!("{m:?} in {regname}: {mode} then {p}"))),
                             Ok(got) => {
@@ -349,7 +396,7 @@ pub fn run_corrupt(scn: &Scenario, prop: &str, explore: bool) -> RunResult {
                                     if let Some(what) = diff {
                                         *stats.entry("silent_differences").or_default() += 1;
                                         let sig = format!("{}:{}", regname, what.replace(' ', "-"));
-                                        vs.push(mk(&["C20"], "original-or-error", sig.clone(), format!("{m:?} in {regname}: {mode} succeeded and frame {id} returned different {what} than committed (verify(deep) {})", if verify_passed { "Passed" } else { "did not pass" })));
+                                        vs.push(mk(&["C20"], "original-or-error", sig.clone(), format!("{m:?} in {regname}: {mode} succeeded and frame {id} returned different {what} than committed (verify(deep) {}){}", if verify_passed { "Passed" } else { "did not pass" }, if std::env::var("MEMSIM_DUMP").is_ok() { format!(" got={:?} committed={:?}", g, o) } else { String::new() })));
                                         if verify_passed {
                                             vs.push(mk(&["C20"], "verify-not-passed-when-reads-differ", sig, format!("{m:?} in {regname}: verify(deep=true) reported Passed although frame {id} reads different {what}")));
                                         }
@@ -464,6 +511,11 @@ pub fn run_corrupt(scn: &Scenario, prop: &str, explore: bool) -> RunResult {
     for (k, v) in &stats {
         res.probes.insert(format!("medium_{k}"), *v);
     }
+    PHASE_MS.with(|m| {
+        for (k, v) in m.borrow().iter() {
+            res.probes.insert(k.clone(), *v);
+        }
+    });
     for (k, v) in &by_region {
         res.probes.insert(format!("fault_in_{k}"), *v);
     }
